@@ -474,9 +474,14 @@ func (c *Ctx) checkCollisionGuard(prefix, mname string, fn *ssa.Function, ft fas
 				c.ok(prefix+".COLLIDE", key, ins.Pos(), "only reachable through the key-match"+map[bool]string{true: " or absent", false: ""}[allowAbsent]+" edge of a test on the cell")
 			}
 		}
-		// uses: returns of cell.Value, deletes and updates of the fast map
+		// uses: returns of cell.Value, deletes and updates of the fast map,
+		// and every read of cell.Value (the value stored under a DIFFERENT key
+		// must not flow anywhere; when the slot is absent it is the zero value)
 		for _, b := range fn.Blocks {
 			for _, ins := range b.Instrs {
+				if v, isV := ins.(ssa.Value); isV && cellField(v, 1) {
+					check(ins, "a read of cell.Value", true)
+				}
 				switch x := ins.(type) {
 				case *ssa.Return:
 					for _, r := range x.Results {
